@@ -1060,7 +1060,7 @@ def replay(path):
     if 'mesh' not in case:
         print('nothing to replay on the implementation:', json.dumps(rp, indent=1)[:2000])
         return 1
-    ctx = lib.Ctx(PID, 'quick')
+    ctx = lib.Ctx(PID, 'quick', clear_replays=False)
     mesh = dict(case['mesh'])
     mesh['descr'] = {'replay': Path(path).name, 'etype': mesh['etype']}
     meshes = {'r0': mesh}
